@@ -545,8 +545,15 @@ class Condition(Event):
         for event in self._events:
             if event.callbacks and self._check in event.callbacks:
                 event.callbacks.remove(self._check)
-            if isinstance(event, Condition):
+            if isinstance(event, Condition) and not event._is_watched():
                 event._remove_check_callbacks()
+
+    def _is_watched(self) -> bool:
+        """Is anybody besides the condition itself waiting for its outcome?
+
+        A nested condition is an event of its own: while a process or another
+        condition waits for it, it has to keep watching its operands."""
+        return any(cb != self._build_value for cb in self.callbacks or ())
 
     def _check(self, event: Event) -> None:
         """Check if the condition was already met and schedule the event if
